@@ -1,5 +1,6 @@
 import Pyab.Properties.C11
 #print axioms Pyab.Properties.C11_checksum_after_compile
+#print axioms Pyab.Properties.C11_digest_collision_resistant
 #print axioms Pyab.Properties.C11_refinement_history
 #print axioms Pyab.Properties.C11_refinement_repo
 #print axioms Pyab.Properties.C11_invalid_always_raises
